@@ -3,7 +3,6 @@ Agreement theorems, phase 6d, part 3 (property C16): the key-path grammar of key
 (`key_path`, `key_paths`, `parse_key_paths`) EQUALS the model (`PathParser.keyPath`, `keyPaths`, `parseKeyPaths`).
 -/
 import JsonbModel.Proofs.TranslatedAgreeJ2
-import JsonbModel.Proofs.TranslatedAgreeE7
 import JsonbModel.Proofs.PathFuel
 
 set_option linter.unusedSimpArgs false
@@ -11,6 +10,26 @@ set_option linter.unusedVariables false
 
 namespace Jsonb.TrAgree
 open Jsonb.Nom Jsonb.PathParser
+
+/-! ## Representation maps of the payload types of earlier phases (own copies, so that this root does not depend on
+the agreement proofs of phases 1 / 5a; `TranslatedAgreeJ9.lean` shows them equal to `ofKP`, `ofIndex`, `ofNum`) -/
+
+/-- the model's key-path item ↦ the translated `enum KeyPath` -/
+def ofKeyPath : KeyPath → Tr.KeyPath
+  | .index i => .Index i
+  | .quoted s => .QuotedName s
+  | .name s => .Name s
+
+/-- model `Index` ↦ translated `jsonpath::Index` -/
+def ofIdx : Jsonb.Index → Tr.Index
+  | .index n => .Index n
+  | .last n => .LastIndex n
+
+/-- model `Num` ↦ translated `Number` (payloads as Rust integer values / `f64` bit patterns) -/
+def ofNumber : Num → Tr.Number
+  | .int i => .Int64 i
+  | .uint n => .UInt64 (n : Int)
+  | .float b => .Float64 b
 
 variable {L : Nat}
 
@@ -26,13 +45,13 @@ theorem agr_ws : Agr L id ws Nom.multispace0 := agr_refl _
 theorem agr_char (c : UInt8) : Agr L id (char c) (char c) := agr_refl _
 
 theorem key_path_agr (ps : Bytes → Int → Int → Res (Bytes × Int)) (hps : PSpec ps) (hL : L ≤ 9223372036854775808) :
-    Agr L ofKP keyPath (Tr.key_path ps) := by
+    Agr L ofKeyPath keyPath (Tr.key_path ps) := by
   unfold keyPath
   refine agr_congr rfl (by funext i; rfl) (agr_alt (agr_map (agr_refl i32) (fun a => rfl))
     (agr_alt (agr_map (agr_string ps hps hL) (fun a => rfl)) (agr_map (agr_raw_string ps hps hL) (fun a => rfl))))
 
 theorem key_paths_agr (ps : Bytes → Int → Int → Res (Bytes × Int)) (hps : PSpec ps) (hL : L ≤ 9223372036854775808) :
-    Agr L (List.map ofKP) keyPaths (Tr.key_paths ps) := by
+    Agr L (List.map ofKeyPath) keyPaths (Tr.key_paths ps) := by
   unfold keyPaths
   refine agr_congr rfl (by funext i; rfl) (agr_alt
     (agr_delimited (agr_preceded agr_ws fine_ws (agr_char _)) (fine_preceded fine_ws (fine_char _))
@@ -44,7 +63,7 @@ theorem key_paths_agr (ps : Bytes → Int → Int → Res (Bytes × Int)) (hps :
       (agr_terminated (agr_char _) (fine_char _) agr_ws)) (fun a => rfl)))
 
 /-- the translated key paths of a model answer -/
-def ofKeyPaths (l : List KeyPath) : Tr.KeyPaths := ⟨l.map ofKP⟩
+def ofKeyPaths (l : List KeyPath) : Tr.KeyPaths := ⟨l.map ofKeyPath⟩
 
 /-- **`parse_key_paths`** (C16): for every input shorter than 2^63 bytes and every callee `parse_string__` that answers
 like the model's, the translated function computes the model's `parseKeyPaths` -/
